@@ -130,6 +130,8 @@ PROPS["C16"] = {
     "assumptions": [
         "middleware wiring as in src/main.rs: the API port wraps app_config(..) in ApiCheckAuth (not re-derived)",
         "actix route matching: scope prefix ++ resource pattern, {x} = one non-empty segment, {x:re} = re, case sensitive, no path normalisation",
+        "s16_1: is_check_path is evaluated from the middleware's own let-initialisers (every let in front of it); request.method() is a symbolic value over the nine standard methods + extension methods; "
+        "one query per registered (route pattern, method) pair; a counterexample is replayed end to end on the real App of the API port (harness/cweb_e2e.rs)",
         "environment of the middleware: path, header/query/body token and session lookup are arbitrary (valid_token is an uninterpreted predicate on the token string); "
         "calls without a model (metrics, response building) are opaque and assumed not to forward the request",
         "gRPC: PayloadUtils::get_payload_type returns an arbitrary type string; RequestMeta fields arbitrary; cluster-internal types = constants named RAFT_* and NAMING_ROUTE_REQUEST",
@@ -415,11 +417,15 @@ for _pid, _fn, _txt in (("C11", _c11, "bookkeeping invariants of one service aft
     }
 PROPS["C11"]["assumptions"].append("s11_3: NamingActor::{update_instance, remove_instance, create_empty_service, clear_empty_service, clear_one_empty_service, remove_empty_service} and NamespaceIndex / ServiceIndex "
                                    "from source on three services (namespaces n1, n1, n2), one address each; the clock is a model variable on the grid start + [0, 20, 45, 100, 200] s, service time-out 30 s; "
-                                   "the native twin (harness/c11_core_priv.rs, inside naming::core) runs the timer step with the clock replaced by real clock + offset")
+                                   "every register / deregister / console-removal step may stand behind a timer round at the next grid point (compound step: time passes between operations without costing a step); "
+                                   "the native twin (harness/c11_core_priv.rs, inside naming::core) runs in scaled real time: 1 s of the grid = 20 ms, service time-out 600 ms")
 for _pid in ("C11", "C12"):
     PROPS[_pid]["files"] = ["src/naming/service.rs", "src/naming/model.rs", "src/naming/core.rs", "src/naming/service_index.rs"]
     PROPS[_pid]["assumptions"].append("actor level (s11_2 / s12_2): NamingActor::{update_instance, remove_instance, remove_client_instance} are evaluated from source on one service with two "
                                       "addresses, connections c1 / c2, single node (no process range); subscriber / cluster notifications are sinks; get_hash_value is a constant")
+PROPS["C13"]["assumptions"].append("s13_expiry: the alphabet has the step 'HTTP-side write (beat / re-registration / console edit) to the registered address, handled by this node as the service's owner' "
+                                   "(from_cluster 0, empty client id - what NamingActor::update_instance hands to Service::update_instance for an in-range service), at the time of the preceding step; "
+                                   "'gRPC-connected' and 'owned by this node' in the tick oracle follow a reference of what the registrations said (an HTTP-side write to a gRPC-connected ephemeral instance leaves it gRPC-connected), not the stored flags")
 PROPS["C13"]["assumptions"].append("health time-out 15, instance time-out 30, clock on the grid %s; removal is two-phase (the tick that finds an instance unhealthy and overdue queues it, the next tick removes it)" % "[0,5,14,16,29,31,46,62]")
 
 
@@ -461,7 +467,8 @@ PROPS["C01"]["files"] = list(PROPS["C01"].get("files", [])) + ["src/raft/filesto
 PROPS["C01"]["outside"] = "the snapshot records of the cache component (observation O-cache) and the log-replay handlers of the table / naming / sequence components (the sequence table's snapshot round trip is decided under C19 s19_6, the MCP component's under C07 s07_mcp_component_paths); the prost codecs of the record values; RaftLogManager's Load implementation"
 PROPS["C01"]["assumptions"] = [
     "s01_2: the start-up chain of StateApplyManager is evaluated from source; index / snapshot / log managers and the data handler are recording sinks with symbolic answers "
-    "(catalogue with 0 or 1 snapshot ending at E >= 1, last-applied index A arbitrary); actor futures run to completion at the call",
+    "(catalogue with 0, 1 or 2 snapshots - the older one ending at E0 < E -, last-applied index A arbitrary); actor futures run to completion at the call; three node scenarios on real store actors + "
+    "state machine are run as validation on every run and as replay: compaction_then_restart, install_then_restart, two_compactions_then_restart (sequence NextId requests between two compactions, restart: the next id is that of the node that kept running)",
     "quick_protobuf Writer / BytesReader primitives and tokio::fs::File are modelled (rs2smt/iomodel.py: open without truncate keeps the old content); SnapshotWriter, SnapshotReader, "
     "the DTO conversions, the generated message code and MessageBufReader are evaluated from source",
     "one tree name, 1-byte keys and values (symbolic), header fields in 1..=127, member / address lists empty; 0 or 2 (thorough: 0..=3) records left by an earlier build of the same id",
@@ -509,6 +516,8 @@ PROPS["C04"] = {
     "assumptions": _LOG_S_ASSUME + [
         "crash model of the property: process death with the OS surviving, every write / set_len call atomic and applied in program order; flush is a no-op",
         "one log file: after a crash behind any prefix of its file mutations the log reopens and shows the state of the last acknowledged operation or of the operation in flight",
+        "s04_7: the append histories in a file whose preallocated length ends 5..25 bytes into the data area (a record ends before / exactly on / across it; at the real scale the file grows in 1 MiB steps), "
+        "a crash behind every prefix of the file mutations (set_len growth, data write, index write), reopen; payload bytes concrete, first index 0",
         "creation of a new log file (s04_2): a crash behind any prefix of init's own mutations leaves a file that reopens as an empty log and accepts the first append",
         "raft index file (s04_3): creation, hard-state save, last-applied write, second save of another record length; a crash behind any prefix of the file's mutations: the file reopens and "
         "reports the last acknowledged (term, vote, last-applied) or the one in flight",
@@ -542,6 +551,8 @@ PROPS["C08"] = {
         "leader stream of 3 chunks of 2 symbolic bytes; schedules: in order, one chunk resent, behind an interrupted transfer of 3 / 6 / 9 bytes",
         "counterexamples about the state reaching the state machine are replayed on a real node (real store actors + state-machine components, harness/hist_store.rs) through "
         "RaftStorage::{create_snapshot, finalize_snapshot_installation}",
+        "s08_7_installation_interrupted: the write-order obligation of C04 (s04_6) read for C08 - behind every prefix of the installation's messages the log is only cut / re-based on the snapshot "
+        "pointer once the snapshot catalogue names the snapshot (a follower killed inside an installation must not restart with a log that claims the snapshot's index and nothing behind it)",
         "s08_4 / s08_5 / s08_6: the content of the snapshot - the config component's, the namespace registry's and the user table's records written by the leader's build_snapshot and loaded by a fresh "
         "component through RaftDataHandler::load_snapshot / load_snapshot_record (the obligations s01_5, s01_3, s01_7 of C01, with their bounds and environment models)",
     ],
